@@ -108,6 +108,15 @@ def _impl(tier, seed, search):
             if ok and x[1] is not None and np.all(np.isfinite(np.r_[x[0], x[1]])):
                 nv = float(np.linalg.norm(x[1]))
                 L.close(f'{cname}.angvec-roundtrip', inputs.rodrigues(x[1] / nv, x[0]) if nv > 0 else np.eye(3), Ra, TOL, 1.0, inpa)
+                L.check(f'{cname}.angvec-range', -1e-12 <= float(x[0]) <= PI + 1e-9, inpa, f'{cname}.angvec(): rotation angle outside [0, pi]', observed=float(x[0]), sig=f'{cname}.angvec-range')
+        # both quaternions of the rotation (q and -q) must give an angle in [0, pi] and the same rotation
+        qa = b.r2q(Ra)
+        for sgn in (1.0, -1.0):
+            ok, x = L.noraise('UQ.angvec-sign', lambda: UnitQuaternion(sgn * qa, norm=False, check=False).angvec(), dict(inpa, q=sgn * qa), 'UnitQuaternion(+-q).angvec()')
+            if ok and x[1] is not None and np.all(np.isfinite(np.r_[x[0], x[1]])):
+                nv = float(np.linalg.norm(x[1]))
+                L.check('UQ.angvec-range', -1e-12 <= float(x[0]) <= PI + 1e-9, dict(inpa, q=sgn * qa), 'UnitQuaternion.angvec(): rotation angle outside [0, pi]', observed=float(x[0]), sig='UQ.angvec-range')
+                L.close('UQ.angvec-roundtrip', inputs.rodrigues(x[1] / nv, x[0]) if nv > 0 else np.eye(3), Ra, TOL, 1.0, dict(inpa, q=sgn * qa))
         # --- planar -----------------------------------------------------------------------------
         xyt = np.r_[g.normal(size=2) * 10.0 ** g.uniform(-3, 3), sing_angle(g, [0.0, PI, PI / 2])]
         if xyt[2] > PI: xyt[2] -= 2 * PI
